@@ -36,7 +36,15 @@ async def party_main(world, p, prog, case):
     cur = x[0] if as_scalar else x
     for td in prog['steps'][1:]:
         T = make_type(rt, td)
-        cur = rt.convert(cur, T)
+        if prog.get('scramble') and isinstance(cur, list) and len(cur) >= 2:
+            # the caller reuses its list right after the call, before anything is awaited
+            arg = list(cur)
+            cur = rt.convert(arg, T)
+            arg.reverse()
+            arg[0] = arg[-1]
+            del arg[1:]
+        else:
+            cur = rt.convert(cur, T)
         r = await rt.output(cur)
         outs.append(r if isinstance(r, list) else [r])
     return {'outs': [[_plain(v) for v in o] for o in outs]}
@@ -176,7 +184,7 @@ def gen(rng, cfg, tier='quick'):
             if integral:
                 dummy = [[1, 1] for _ in vals]
         return {'family': NAME, 'steps': steps, 'values': enc, 'dummy': dummy, 'sender': rng.randrange(cfg.m),
-                'scalar': rng.random() < 0.3}
+                'scalar': rng.random() < 0.3, 'scramble': rng.random() < 0.3}
     return {'family': NAME, 'steps': [{'kind': 'int', 'l': 16}, {'kind': 'int', 'l': 32}], 'values': [5], 'dummy': [0],
             'sender': 0, 'scalar': False}
 
